@@ -49,7 +49,8 @@ func init() {
 	Register(&Prop{
 		ID:    "C01",
 		Title: "WHERE keeps exactly the rows that satisfy the predicate, in source order",
-		Rule: "rapid draws a typed table t (2-5 columns of kind int/num/str/bool, some nullable, 0-10 rows from small per-column value pools, " +
+		Rule: "[Dimensions added in rounds p-r of the seeded-defect evaluation: a sixth of the cases read the table under an alias (FROM t x WHERE x.col ..., rows come back as {x: row}); an eighth of the IN lists have 30-120 members (negative numbers, zero, fractions, not ascending); LIKE patterns also made of 2-4 arbitrary fragments of one value around % and of head%mid%tail cut out of one value so that mid overlaps its neighbours.] " +
+			"rapid draws a typed table t (2-5 columns of kind int/num/str/bool, some nullable, 0-10 rows from small per-column value pools, " +
 			"LIKE-hostile strings included; about 2.5% of the cases expand t to 200-700 rows by a recipe; a third of the numeric columns are handed to the engine as native Go values of another numeric type: int*, uint*, float32), a second table t2 for IN-subqueries and a predicate tree (depth<=5) over = != <> < <= > >= / [NOT] IN / " +
 			"IN (SELECT..) / [NOT] BETWEEN / [NOT] LIKE / IS [NOT] NULL|TRUE|FALSE / AND OR NOT; oracle = independent reference filter " +
 			"(sequence equality) for p and NOT(p), plus engine-vs-engine rewrites (BETWEEN -> >= AND <=, NOT IN -> NOT(IN), NOT LIKE -> NOT(LIKE)). " +
